@@ -170,6 +170,27 @@ def run(ctx, repo, tier):
         ctx.check(not late, "DOM", "C16.nonneg.last", "the check is applied to the final values (no other re-definition of "
                   "trans_grid follows it)", where, norm_stmt(late[0].stmt) if late else "", witness="trans_grid is re-assigned after the check")
 
+    # values must reach the check unaltered in sign: abs / clip / maximum / square before the check would turn a rejection into
+    # a silent conversion
+    SIGN_KILLERS = {"numpy.abs", "numpy.absolute", "numpy.fabs", "numpy.clip", "numpy.maximum", "numpy.square", "builtins.abs"}
+    for node in cfg.nodes:
+        st = node.stmt
+        if isinstance(st, (ast.Assign, ast.AugAssign)):
+            tgts = st.targets if isinstance(st, ast.Assign) else [st.target]
+            if not any(is_self_attr(t, "trans_grid") for t in tgts):
+                continue
+            for c in ast.walk(st.value):
+                if isinstance(c, ast.Call):
+                    d = repo.dotted_of(init.module, c.func) or ("builtins." + c.func.id if isinstance(c.func, ast.Name) else "")
+                    meth = c.func.attr if isinstance(c.func, ast.Attribute) else ""
+                    if d in SIGN_KILLERS or (meth in ("clip",) and not d.startswith("numpy.")):
+                        before_check = checks and not any(cfg.dominates(ch, node) for ch in checks)
+                        ctx.instance("DOM")
+                        if before_check or not checks:
+                            ctx.violate("DOM", "C16.nonneg.sign", "the distances pass through a transformation that removes their sign before "
+                                        "the non-negativity check: negative distances are silently converted instead of rejected (and the "
+                                        "result may be unsorted / contain duplicates)", where, norm_stmt(st)[:160],
+                                        witness=f"{src(c)[:80]} is applied before the check")
     # ---------------------------------------------------------------- COEF + FLOW per branch (abstract interpretation)
     for name, (ls, rg) in {"literal": (False, False), "linspace": (True, False), "range": (False, True)}.items():
         interp = Interp(repo, BranchHooks(ls, rg))
